@@ -99,8 +99,21 @@ func c22(r *core.Report, p *core.Prog, thorough bool) {
 				if rt, pth := core.BaseObject(x); pth == ".ClientID" && core.ParamOf(rt) == txnPrm && blockField(y, "MinerID") {
 					gen = true
 				}
-				if rt, pth := core.BaseObject(x); pth == ".Round" && inputObj != nil && rt == inputObj && blockField(y, "Round") {
-					rnd = true
+				if rt, pth := core.BaseObject(x); pth == ".Round" && blockField(y, "Round") {
+					if inputObj != nil && rt == inputObj {
+						rnd = true
+					}
+					// decoded inside a guard helper: the object is the helper's own decode target
+					// of an error-checked json.Unmarshal of the input it was handed
+					if bv, ok := rt.(*core.Bound); ok && bv.V.Parent() != nil {
+						for _, c := range findCalls(bv.V.Parent(), "encoding/json.Unmarshal") {
+							tgt, _ := core.BaseObject(c.Call.Args[1])
+							src := core.ParamOf(c.Call.Args[0])
+							if tgt == bv.V && src != nil && core.ParamOf(bv.Bind[src]) == inputPrm && core.ErrLeadsToFailure(c) {
+								rnd = true
+							}
+						}
+					}
 				}
 				x, y = y, x
 			}
@@ -307,6 +320,11 @@ func c22Division(r *core.Report, p *core.Prog, paySh *ssa.Function) {
 				}
 			}
 		}
+	}
+	if cS == nil && cL == nil {
+		// the per-sharder step is written inline in the loop: share and remainder are SSA values
+		c22DivisionInline(r, p, paySh, list, dc0, isN)
+		return
 	}
 	if cS == nil || cL == nil {
 		r.Fail("C22.division", "division:cells", p.Pos(dc0.Pos()), "the quotient/remainder are not kept in variables shared with the per-sharder step (shape not recognised)")
@@ -866,4 +884,159 @@ func reachesBlock(from, to *ssa.BasicBlock) bool {
 		return false
 	}
 	return walk(from)
+}
+
+// c22DivisionInline decides the obligations of c22Division when the per-sharder step is the
+// body of the range loop itself (no closure): the remainder is a loop-carried phi, the share a
+// loop-invariant value.
+func c22DivisionInline(r *core.Report, p *core.Prog, paySh *ssa.Function, list ssa.Value, dc0 *ssa.Call, isN func(ssa.Value) bool) {
+	ext := func(c *ssa.Call, i int) ssa.Value {
+		for _, ref := range *c.Referrers() {
+			if e, ok := ref.(*ssa.Extract); ok && e.Index == i {
+				return e
+			}
+		}
+		return nil
+	}
+	share0, left0 := ext(dc0, 0), ext(dc0, 1)
+	var rl *RangeLoop
+	for _, l := range RangeLoops(paySh) {
+		l := l
+		if l.Slice == list {
+			rl = &l
+		}
+	}
+	var pays []*ssa.Call
+	pays = append(pays, methodCalls(paySh, "DistributeRewardsRandN")...)
+	pays = append(pays, methodCalls(paySh, "DistributeRewards")...)
+	if rl == nil || len(pays) != 1 || !rl.L.Body[pays[0].Block()] || share0 == nil || left0 == nil {
+		r.Fail("C22.division", "division:per-sharder-step", p.Pos(paySh.Pos()), "no complete loop over the rewarded sharders making exactly one reward call per sharder (shape not recognised)")
+		return
+	}
+	pay := pays[0]
+	hdr := rl.L.Header
+	okStep, whyStep := true, ""
+	ac, idx := core.CallOf(core.CallArgs(pay.Common())[0])
+	if ac == nil || idx != 0 || core.CalleeName(ac.Common()) != pkgCurr+".AddCoin" || !core.ErrLeadsToFailure(ac) {
+		r.Fail("C22.division", "division:step-pays-share-plus-one-while-left", p.Pos(pay.Pos()), "paid value is not AddCoin(share, extra)#0 (checked); got "+describe(core.CallArgs(pay.Common())[0]))
+		return
+	}
+	S := ac.Call.Args[0]
+	if in, ok := S.(ssa.Instruction); ok && rl.L.Body[in.Block()] {
+		okStep, whyStep = false, "the share changes inside the loop"
+	}
+	// the remainder: header phi, entry value Linit, back-edge value Lnext
+	var L *ssa.Phi
+	var Linit, Lnext ssa.Value
+	extra, isPhi := ac.Call.Args[1].(*ssa.Phi)
+	if !isPhi || len(extra.Edges) != 2 {
+		okStep, whyStep = false, "extra share is not a two-way choice"
+	} else {
+		var decBlock *ssa.BasicBlock
+		var dec *ssa.BinOp
+		for i, e := range extra.Edges {
+			if k, isK := core.ConstInt(e); isK && k == 1 {
+				decBlock = extra.Block().Preds[i]
+			}
+		}
+		if decBlock != nil {
+			for _, in := range decBlock.Instrs {
+				if bo, ok := in.(*ssa.BinOp); ok && bo.Op == token.SUB {
+					if k, isK := core.ConstInt(bo.Y); isK && k == 1 {
+						if ph, ok := bo.X.(*ssa.Phi); ok && ph.Block() == hdr {
+							dec, L = bo, ph
+						}
+					}
+				}
+			}
+		}
+		if dec == nil {
+			okStep, whyStep = false, "the extra unit is not tied to a branch that decrements the remainder"
+		} else {
+			for i, e := range L.Edges {
+				if rl.L.Body[hdr.Preds[i]] {
+					Lnext = e
+				} else {
+					Linit = e
+				}
+			}
+			// extra = 1 exactly on the decrement edge, 0 otherwise; the carried remainder is
+			// left-1 on that edge and left on the other
+			carried, ok := Lnext.(*ssa.Phi)
+			if !ok || carried.Block() != extra.Block() || len(carried.Edges) != 2 {
+				okStep, whyStep = false, "the remainder carried to the next sharder is not chosen together with the extra unit"
+			} else {
+				for i := range extra.Edges {
+					k, isK := core.ConstInt(extra.Edges[i])
+					fromDec := extra.Block().Preds[i] == decBlock
+					switch {
+					case fromDec && isK && k == 1 && carried.Edges[i] == ssa.Value(dec):
+					case !fromDec && isK && k == 0 && carried.Edges[i] == ssa.Value(L):
+					default:
+						okStep, whyStep = false, "the extra unit is not tied to the branch that decrements the remainder"
+					}
+				}
+			}
+			g := false
+			for _, f := range CmpFacts(decBlock) {
+				if f.X == ssa.Value(L) {
+					if k, isK := core.ConstInt(f.Y); isK && ((f.Op == token.GTR && k == 0) || (f.Op == token.GEQ && k == 1) || (f.Op == token.NEQ && k == 0)) {
+						g = true
+					}
+				}
+			}
+			if !g {
+				okStep, whyStep = false, "left-- is not guarded by left > 0 (the counter that is decremented is not the one tested)"
+			}
+		}
+	}
+	onVisited := false
+	if ld, ok := core.Receiver(pay.Common()).(*ssa.UnOp); ok {
+		if fa, ok := ld.X.(*ssa.FieldAddr); ok && core.FieldOf(fa) != nil && core.FieldOf(fa).Name() == "StakePool" && rl.IsElem(fa.X) {
+			onVisited = true
+		}
+	}
+	if !onVisited {
+		okStep, whyStep = false, "the reward is not credited to the visited sharder's stake pool; got "+describe(core.Receiver(pay.Common()))
+	}
+	r.Check(okStep, "C22.division", "division:step-pays-share-plus-one-while-left", p.Pos(pay.Pos()), "each sharder receives share + 1 while the remainder lasts, the remainder counting down by one per extra unit; "+whyStep)
+	// (S, Linit) is the initial split or a conserving redistribution of it, pairwise
+	okRe, whyRe := Linit != nil, "remainder variable not identified"
+	if Linit != nil {
+		pairOK := func(s, l ssa.Value) bool {
+			if s == share0 && l == left0 {
+				return true
+			}
+			a2, i2 := core.CallOf(s)
+			le, ok := l.(*ssa.Extract)
+			if a2 == nil || i2 != 0 || !ok || le.Index != 1 || core.CalleeName(a2.Common()) != pkgCurr+".AddCoin" || !core.ErrLeadsToFailure(a2) || a2.Call.Args[0] != share0 {
+				return false
+			}
+			dc1, ok := le.Tuple.(*ssa.Call)
+			if !ok || core.CalleeName(dc1.Common()) != pkgCurr+".DistributeCoin" || !core.ErrLeadsToFailure(dc1) || !isN(dc1.Call.Args[1]) || dc1.Call.Args[0] != left0 {
+				return false
+			}
+			qe, ok := a2.Call.Args[1].(*ssa.Extract)
+			return ok && qe.Index == 0 && qe.Tuple == ssa.Value(dc1)
+		}
+		sp, ok1 := S.(*ssa.Phi)
+		lp, ok2 := Linit.(*ssa.Phi)
+		switch {
+		case ok1 && ok2 && sp.Block() == lp.Block() && len(sp.Edges) == len(lp.Edges):
+			for i := range sp.Edges {
+				if !pairOK(sp.Edges[i], lp.Edges[i]) {
+					okRe, whyRe = false, "an incoming (share, remainder) pair is neither the initial split nor a conserving redistribution"
+				}
+			}
+		case !ok1 && !ok2:
+			if !pairOK(S, Linit) {
+				okRe, whyRe = false, "the (share, remainder) pair used by the loop is neither the initial split nor a conserving redistribution"
+			}
+		default:
+			okRe, whyRe = false, "share and remainder are not chosen together"
+		}
+	}
+	r.Check(okRe, "C22.division", "division:share-and-remainder-only-redistributed", p.Pos(paySh.Pos()), "share*n + left stays equal to the reward; "+whyRe)
+	okB, d := rl.BodyMustPass(p, pay)
+	r.Check(okB && core.ErrLeadsToFailure(pay), "C22.division", "division:every-sharder-once", p.Pos(paySh.Pos()), "the step runs once for every rewarded sharder, error aborting (1 call sites); "+d)
 }
